@@ -134,6 +134,7 @@ OBLIGATIONS = [
     native("n_c17_convert_week_day", ["C17"], "C17.convert.week", "convert::schedules_from_bdl", CV + "n_c17_convert_week_day"),
     native("n_c14_seed_closed", ["C14"], "C14.seed", "Model::energy_indicators / EnergyIndicators::as_json", RN + "n_c14_seed_closed"),
     native("n_c14_single_edits", ["C14"], "C14.edit1", "Model::energy_indicators (EnergyProps::from, compute_fshobst, KData, N50Data, QSolJulData, check)", RN + "n_c14_single_edits", crash=True, timeout=300),
+    native("n_c14_triple_edits", ["C14"], "C14.edit3", "Model::energy_indicators", RN + "n_c14_triple_edits", crash=True, tier="thorough", timeout_thorough=2400),
     native("n_c14_double_edits", ["C14"], "C14.edit2", "Model::energy_indicators", RN + "n_c14_double_edits", crash=True, timeout=600),
     native("n_c06_resistance", ["C06"], "C06.resistance", "WallCons::resistance", TR + "n_c06_resistance"),
     native("n_c06_uint_value", ["C06"], "C06.uint", "Wall::u_value_interior_cond_uncond", TR + "n_c06_uint_value"),
